@@ -225,7 +225,7 @@ fn sequence_doc_with(
             let comma = glued || needs_explicit_comma(&sequence.chains[index - 1], chain);
             // Set a tall step off from its neighbours with a blank line (two newlines). `collapse_
             // blanks` caps a run at one, so this composes with any blank the author already left.
-            if prev_tall || tall {
+            if (prev_tall || tall) && !trivia.inline {
                 if comma {
                     rest.push(pretty::text(","));
                 }
@@ -613,10 +613,11 @@ fn single_line_string_doc(trivia: &Trivia, segments: &[StrSegment]) -> Doc {
             // A hole parses like a block body. Render its branches flat (single-line strings stay
             // on one line) and wrap them tightly in braces — `{name}`, not `{ name }`.
             StrSegment::Hole(expression) => {
+                let hole_view = trivia.for_hole();
                 let body = expression
                     .branches
                     .iter()
-                    .map(|branch| pretty::flatten(&branch_doc(trivia, branch, false)))
+                    .map(|branch| pretty::flatten(&branch_doc(&hole_view, branch, false)))
                     .collect::<Vec<_>>()
                     .join(" | ");
                 out.push('{');
@@ -698,7 +699,7 @@ fn multiline_string_doc(trivia: &Trivia, segments: &[StrSegment]) -> Doc {
                 // The chains of a multi-line string's hole are parsed from the de-indented text, so
                 // their span offsets are relative to the string, not the file: looked up in the
                 // file's trivia maps they would pick up some other node's comments/blank lines.
-                let no_trivia = trivia.without_comments();
+                let no_trivia = trivia.for_hole();
                 let body = expression
                     .branches
                     .iter()
@@ -988,16 +989,23 @@ struct Trivia {
     /// neither the printer's trailing-whitespace stripping nor the blank-line collapsing can touch
     /// the *value* of a string.
     literals: std::rc::Rc<std::cell::RefCell<Vec<Vec<String>>>>,
+    /// Set in the view used for interpolation holes: their content is flattened onto the string's
+    /// line, so nothing in it may rely on a hard line break.
+    inline: bool,
 }
 
 impl Trivia {
-    /// A view with no comments or blank lines (sharing the literal store).
-    fn without_comments(&self) -> Trivia {
+    /// The view for rendering an interpolation hole: no comments or blank lines (none are collected
+    /// inside a literal, and the spans inside a multi-line string's holes are relative to the string,
+    /// so looked up in the file's maps they would hit some other node), inline layout, same literal
+    /// store.
+    fn for_hole(&self) -> Trivia {
         Trivia {
             leading: HashMap::new(),
             trailing: HashMap::new(),
             dangling: Vec::new(),
             literals: self.literals.clone(),
+            inline: true,
         }
     }
 
@@ -1062,6 +1070,7 @@ impl Trivia {
             trailing,
             dangling,
             literals: Default::default(),
+            inline: false,
         }
     }
 
